@@ -276,7 +276,7 @@ func (k *keyTaint) classify(v ssa.Value, depth int) textClass {
 				idx = i
 			}
 		}
-		callers := k.c.P.Callers(fn)
+		callers := k.c.P.RealCallers(fn)
 		if len(callers) == 0 {
 			k.why = append(k.why, "parameter "+x.Name()+" of "+k.c.P.Name(fn)+" has no visible caller")
 			return txUnknown
